@@ -293,3 +293,32 @@ func SignExtend(v uint64, size int) int64 {
 	shift := uint(64 - 8*size)
 	return int64(v<<shift) >> shift
 }
+
+var crcTab = func() (t [256]uint16) {
+	for i := range t {
+		t[i] = CRCUpdate(0, []byte{byte(i)})
+	}
+	return
+}()
+
+// CRCFast is the byte-table form of CRCUpdate (table derived from the bitwise definition).
+func CRCFast(c uint16, data []byte) uint16 {
+	for _, b := range data {
+		c = (c >> 8) ^ crcTab[byte(c)^b]
+	}
+	return c
+}
+
+// Seal writes data size, header CRC (if 14-byte header, mode correct) and the
+// trailing CRC into buf, which must be header+data+2 bytes long. In-place variant of File.
+func Seal(buf []byte) {
+	hs := int(buf[0])
+	n := len(buf) - hs - 2
+	binary.LittleEndian.PutUint32(buf[4:8], uint32(n))
+	if hs == 14 {
+		c := CRCFast(0, buf[:12])
+		buf[12], buf[13] = byte(c), byte(c>>8)
+	}
+	c := CRCFast(0, buf[:len(buf)-2])
+	buf[len(buf)-2], buf[len(buf)-1] = byte(c), byte(c>>8)
+}
